@@ -49,20 +49,24 @@ theorem describe_exact {S : Schema} (h : Accepted S) (F : List String) :
   show ({ queryType := S.defn.query, mutationType := visibleRoot S.defn F S.defn.mutation,
           subscriptionType := visibleRoot S.defn F S.defn.subscription,
           types := sortTypes ((((S.namedTypes.filterMap S.defn.lookup).filter (fun t => subsetOf t.feat.keys F))).map (typeData S F)),
-          directives := S.defn.directives.map (directiveData S.defn) } : IntroData) = _
+          directives := S.defn.directives.map (fun dd => directiveData S.defn (visibleDirective S.defn F dd)) } : IntroData) = _
   rw [htypes]
+  have hdirs : (visible S F).directives.map (directiveData S.defn)
+      = S.defn.directives.map (fun dd => directiveData S.defn (visibleDirective S.defn F dd)) := by
+    simp [visible, List.map_map, Function.comp_def]
+  rw [hdirs]
   rfl
 
 
 /-- **visible_closed** — the schema visible to a request is closed under references: the type of
     every visible field, argument and input field, every listed interface, every union member and
-    every directive argument type is itself visible. This is where the feature constraints of
-    `shallowValidate` and fix patch 04 are needed. Directives are not feature-gated and
-    `schema.New` accepts a directive argument of a gated type (open finding F-10g), hence the second
-    hypothesis; `visible_not_closed_gated_directive_argument` below shows it cannot be dropped. -/
-theorem visible_closed {S : Schema} (h : Accepted S) (hd : DirArgsUngated S) (F : List String) :
+    every visible directive argument type is itself visible. This is where the feature constraints of
+    `shallowValidate`, fix patch 04 (interfaces / possible types filtered) and fix C13/05 (a directive
+    argument of a gated type is hidden) are needed; `prefix_listing_not_closed_gated_directive_argument`
+    below shows that the unfiltered directive listing of the code before C13/05 was not closed (F-10g). -/
+theorem visible_closed {S : Schema} (h : Accepted S) (F : List String) :
     ClosedV (visible S F) :=
-  visible_closed' h hd F
+  visible_closed' h F
 
 /-- **describe_types_once** — the description lists exactly the types of the visible schema, each
     once (a permutation of the visible schema's type names). -/
@@ -132,23 +136,32 @@ theorem witnessG_accepted : Accepted witnessG := by
 
 example : (registries witnessG.defn).names = ["E", "Query", "Int"] := by decide
 
-/-- **F-10g negation witness** — without `DirArgsUngated` the visible schema need not be closed:
-    for the request without feature `x` the directive `@tag(e: E)` is visible, `E` is not. -/
-theorem visible_not_closed_gated_directive_argument : ¬ ClosedV (visible witnessG []) := by
+/-- What a request saw before fix C13/05: the visible schema with the directives listed with all
+    their arguments. -/
+def visiblePrefix (S : Schema) (F : List String) : SchemaDef Unit :=
+  { visible S F with directives := S.defn.directives }
+
+/-- **F-10g witness (pre-fix listing)** — with the directive arguments listed unfiltered, as before
+    fix C13/05, the visible schema is not closed: for the request without feature `x` the directive
+    `@tag(e: E)` names `E`, which is not visible. With the fix (`visible`) it is closed
+    (`visible_closed`), and `@tag` is listed without that argument. -/
+theorem prefix_listing_not_closed_gated_directive_argument : ¬ ClosedV (visiblePrefix witnessG []) := by
   intro hc
   have := hc.2 _ (List.mem_cons_self) _ (List.mem_cons_self)
   revert this
   decide
 
+example : (visible witnessG []).directives.map (fun dd => dd.args.map (·.name)) = [[]]
+    ∧ (visible witnessG ["x"]).directives.map (fun dd => dd.args.map (·.name)) = [["e"]] := by decide
 
 /-- Non-vacuity of `describe_exact` / `visible_closed`: the same schema without the directive
     satisfies both hypotheses (and its enum `E` is hidden from the request without feature `x`). -/
 def witnessOk : Schema := { witnessG with defn := { witnessG.defn with directives := [] } }
 
-example : Accepted witnessOk ∧ DirArgsUngated witnessOk
+example : Accepted witnessOk
     ∧ (visible witnessOk []).types.map (·.name) = ["Int", "Query"]
     ∧ (visible witnessOk ["x"]).types.map (·.name) = ["E", "Int", "Query"] := by
-  unfold Accepted DirArgsUngated
+  unfold Accepted
   decide
 
 /-! ## Clone -/
@@ -200,7 +213,7 @@ theorem clone_disjoint {b : Nat} {d : GDef} (hb : ∀ i ∈ d.ids, i < b) (hc : 
 /-! ## Rebuilding a schema from the introspection result -/
 
 /-- **rebuild_introspect** (`rebuild_same_verdicts_partial`, see below) — for an accepted schema
-    whose directive argument types are ungated, whose wrapper chains have at most seven wrappers
+    whose wrapper chains have at most seven wrappers
     (what query.go selects), whose directive locations are the specification's and whose root types
     the request can see (`RebuildGuards`): `GetSchemaDefinition` applied to the introspection result
     succeeds and returns **exactly** `forgetDef (visible S F)` — the visible schema with its types in
@@ -209,10 +222,10 @@ theorem clone_disjoint {b : Nat} {d : GDef} (hb : ∀ i ∈ d.ids, i < b) (hc : 
     `AdditionalTypes` (now: the objects that implement interfaces). Names, kinds, descriptions,
     fields, arguments, input fields, wrapper chains, enum values, deprecation reasons, interfaces,
     union members, directives with locations and arguments all survive. -/
-theorem rebuild_introspect {S : Schema} (h : Accepted S) (hd : DirArgsUngated S) {F : List String}
+theorem rebuild_introspect {S : Schema} (h : Accepted S) {F : List String}
     (hg : RebuildGuards S F) : rebuild (introspect S F) = .ok (forgetDef (visible S F)) := by
   rw [describe_exact h F]
-  exact rebuild_describe _ _ (rebuildOk_visible h hd hg)
+  exact rebuild_describe _ _ (rebuildOk_visible h hg)
 
 /-- **rebuild_same_verdicts_partial**. Full statement (not proved, and false on the unchanged code
     because of F-10a): `∀ D, validate (New (rebuild (introspect S ⊤))) D = [] ↔ validate S D = []`.
@@ -223,14 +236,14 @@ theorem rebuild_introspect {S : Schema} (h : Accepted S) (hd : DirArgsUngated S)
     attribute, and of those only default values are read by the validator (required arguments /
     input fields, nullable variable in a defaulted non-null position): the harness's F-10a
     classifier checks precisely this on every differing verdict. -/
-theorem rebuild_same_verdicts_partial {S : Schema} (h : Accepted S) (hd : DirArgsUngated S) {F : List String}
+theorem rebuild_same_verdicts_partial {S : Schema} (h : Accepted S) {F : List String}
     (hg : RebuildGuards S F)
     (hall : ∀ t ∈ S.defn.types, subsetOf t.feat.keys F = true ∧ ∀ f ∈ t.fields, subsetOf f.feat.keys F = true) :
     rebuild (introspect S F) = .ok (forgetDef (visible S F))
     ∧ (visible S F).types.map (·.name) = (S.defn.types.filter (fun t => S.namedTypes.contains t.name)).map (·.name)
     ∧ ∀ t ∈ S.defn.types, (restrict S F t).fields = t.fields := by
   have hf := facts_of_accepted h
-  refine ⟨rebuild_introspect h hd hg, ?_, ?_⟩
+  refine ⟨rebuild_introspect h hg, ?_, ?_⟩
   · rw [visible_types_names]
     congr 1
     apply List.filter_congr
